@@ -174,6 +174,16 @@ class C16Check(object):
             case["test"] = spaces.random_spec(r, raw2, [tk], p_restrict=0.55)
         # extra spaces whose colouring is checked although they are not assembled
         case["extra_spaces"] = [spaces.random_spec(r, raw1, [r.choice(ALL_KINDS)], p_restrict=0.6) for _ in range(2)]
+        # O2 is cheap: sample the colouring sentence on further (also larger) grids and every space kind
+        extra = []
+        for _ in range(2 if self.tier == "quick" else 4):
+            fam = r.choice(GRID_FAMILIES)
+            ref = r.choice([0, 1, 1, 2]) if fam in ("tetrahedron", "octahedron", "screen1", "fan", "lshape", "cube") else r.choice([0, 1])
+            g = {"family": fam, "refinements": ref, "tseed": r.randrange(1 << 30), "renumber": r.random() < 0.8,
+                 "rotate": r.random() < 0.8, "affine": False}
+            rawx = self._raw(g)
+            extra.append({"grid": g, "spaces": [spaces.random_spec(r, rawx, [r.choice(ALL_KINDS)], p_restrict=0.7) for _ in range(3)]})
+        case["extra_grids"] = extra
         case["params"] = {
             "quadrature.regular": r.choice([1, 2, 2, 3]),
             "quadrature.singular": r.choice([1, 2, 2, 3]),
@@ -278,6 +288,15 @@ class C16Check(object):
             s = mk(grid1, sp, "extra%d" % i)
             if s is not None:
                 self._colour(s, out, "extra%d:%s" % (i, sp["kind"]), sp)
+        for j, eg in enumerate(case.get("extra_grids", [])):
+            gx = grids.to_grid(self._raw(eg["grid"]))
+            for i, sp in enumerate(eg["spaces"]):
+                s = mk(gx, sp, "xg%d.%d" % (j, i))
+                if s is not None:
+                    out.probe("extra_grid_spaces_coloured")
+                    if gx.number_of_elements > 60:
+                        out.probe("coloured_space_on_grid_over_60_elements")
+                    self._colour(s, out, "xg%d.%d:%s" % (j, i, sp["kind"]), sp)
         trial = mk(grid1, case["trial"], "trial")
         if trial is None:
             return
@@ -397,6 +416,7 @@ class C16Check(object):
         steps = [
             lambda c: c.update(repeat=False),
             lambda c: c.update(extra_spaces=[]),
+            lambda c: c.update(extra_grids=[]),
             lambda c: c["grid"].update(renumber=False, rotate=False),
             lambda c: c["grid"].update(refinements=0),
             lambda c: c.pop("grid2", None),
